@@ -3,7 +3,18 @@
 //! never chooses who runs. A thread can be parked here in the middle of an unwind (from a guard's
 //! destructor), with `std::thread::panicking() == true` on that thread, while others run.
 
+//!
+//! Stall rule: the baton holder may block on something the scheduler does not see (a lock inside the
+//! code under test that a *parked* thread holds). If no scheduling decision has been made for
+//! `STALL` of wall time while threads are parked, the scheduler lets every thread run freely for the
+//! rest of the run (as the OS would); the run is still judged, and a run that does not finish even
+//! then is a genuine hang, which the coordinator reports. Correct code never gets near the bound.
+
 use std::sync::{Condvar, Mutex, MutexGuard};
+use std::time::{Duration, Instant};
+
+const STALL: Duration = Duration::from_secs(3);
+const TICK: Duration = Duration::from_millis(100);
 
 struct State {
     /// thread holding the baton; `usize::MAX` before kickoff and after the last thread finished
@@ -15,6 +26,10 @@ struct State {
     parked_unwinding: Vec<bool>,
     overlap_events: u64,
     hook_parks: u64,
+    /// wall time of the last scheduling decision (stall rule only; never feeds a decision)
+    last_decision: Instant,
+    /// the stall rule fired: everybody runs
+    free: bool,
 }
 
 pub struct Sched {
@@ -34,6 +49,8 @@ impl Sched {
                 parked_unwinding: vec![false; n],
                 overlap_events: 0,
                 hook_parks: 0,
+                last_decision: Instant::now(),
+                free: false,
             }),
             cv: Condvar::new(),
         }
@@ -48,6 +65,7 @@ impl Sched {
         if live.is_empty() {
             return None;
         }
+        st.last_decision = Instant::now();
         let c = st.schedule.get(st.pos).copied().unwrap_or(0) as usize;
         st.pos += 1;
         let next = live[c % live.len()];
@@ -62,26 +80,37 @@ impl Sched {
         self.cv.notify_all();
     }
 
-    fn wait_for(&self, mut st: MutexGuard<'_, State>, tid: usize) {
-        while st.current != tid {
-            st = self.cv.wait(st).unwrap_or_else(|e| e.into_inner());
+    fn wait_for<'a>(&'a self, mut st: MutexGuard<'a, State>, tid: usize) -> MutexGuard<'a, State> {
+        while st.current != tid && !st.free {
+            let (g, to) = self.cv.wait_timeout(st, TICK).unwrap_or_else(|e| e.into_inner());
+            st = g;
+            if to.timed_out() && !st.free && st.current != usize::MAX && st.last_decision.elapsed() > STALL {
+                st.free = true;
+                self.cv.notify_all();
+            }
         }
+        st
+    }
+
+    /// Did the stall rule fire in this run?
+    pub fn ran_free(&self) -> bool {
+        self.lock().free
     }
 
     pub fn start(&self, tid: usize) {
         let st = self.lock();
-        self.wait_for(st, tid);
+        drop(self.wait_for(st, tid));
     }
 
     pub fn yield_point(&self, tid: usize, unwinding: bool) {
         let mut st = self.lock();
+        if st.free {
+            return;
+        }
         st.parked_unwinding[tid] = unwinding;
         st.current = Self::choose(&mut st).unwrap_or(tid);
         self.cv.notify_all();
-        let mut st2 = st;
-        while st2.current != tid {
-            st2 = self.cv.wait(st2).unwrap_or_else(|e| e.into_inner());
-        }
+        let mut st2 = self.wait_for(st, tid);
         st2.parked_unwinding[tid] = false;
     }
 
